@@ -129,6 +129,17 @@ func (rs *RedisServer) Backend() *Backend {
 		Now:     time.Now,
 		Unit:    Unit,
 		Advance: func(n int) { rs.MR.FastForward(time.Duration(n) * Unit) },
+		Tick:    func() { rs.MR.FastForward(5 * time.Millisecond) },
+		StoredTTL: func(key string) (time.Duration, bool) {
+			for len(key) > 0 && key[0] == '/' { // the backend's key mapping: leading slashes dropped, "/kvs/" prefix
+				key = key[1:]
+			}
+			k := "/kvs/" + key
+			if !rs.MR.Exists(k) {
+				return 0, false
+			}
+			return rs.MR.TTL(k), true
+		},
 		RunWait: func(key, ver string) (error, bool) {
 			// the backend polls: "parked" = three polls reached the server after the call started and it has
 			// still not returned (logical steps, counted by the pre-hook). No deadline decides.
